@@ -3,6 +3,13 @@
 Shared machinery for C02 and C03: scenario generator (accepted timelines only), the real
 `ear.core.renderer.Renderer` driven through its public API with small block/decorrelator sizes, gain capture
 from the real gain calculators, the encoding for the Lean driver `c02driver` and the comparison.
+
+Round 4: items may carry a track spec (`item["spec"]` for Objects/DirectSpeakers, `item["specs"]` for HOA) as a
+JSON-friendly nested list
+    ["D", i] | ["S"] | ["M", [spec, ...]] | ["G", "n/d", spec] | ["X", "n/d"|None, "n/d"|None, spec]
+(`X gain delay_ms input`; rationals are the exact values of the floats given to the real classes). Such scenarios
+render through the REAL Renderer with those `track_spec`s and are compared with the extended Lean model
+(`Model/RendererTS.lean`, driver ops `runts` / `spects`); scenarios without specs go through the original model.
 """
 import copy
 import itertools
@@ -68,6 +75,175 @@ def fr(s):
 
 def frs(q):
     return None if q is None else "%d/%d" % (q.numerator, q.denominator)
+
+
+# --------------------------------------------------------------------------------------
+# track specs (round 4)
+
+
+def spec_real(t):
+    """nested-list spec -> real TrackSpec objects"""
+    from ear.core.metadata_input import (DirectTrackSpec, SilentTrackSpec, MixTrackSpec, GainTrackSpec,
+                                         MatrixCoefficientTrackSpec)
+    from ear.fileio.adm.elements import MatrixCoefficient
+
+    k = t[0]
+    if k == "D":
+        return DirectTrackSpec(t[1])
+    if k == "S":
+        return SilentTrackSpec()
+    if k == "M":
+        return MixTrackSpec([spec_real(c) for c in t[1]])
+    if k == "G":
+        return GainTrackSpec(spec_real(t[2]), float(F(t[1])))
+    if k == "X":
+        return MatrixCoefficientTrackSpec(
+            spec_real(t[3]),
+            MatrixCoefficient(gain=None if t[1] is None else float(F(t[1])),
+                              delay=None if t[2] is None else float(F(t[2]))))
+    raise AssertionError(t)
+
+
+def spec_text(t):
+    """nested-list spec -> the driver's prefix syntax"""
+    k = t[0]
+    if k == "D":
+        return "D %d" % t[1]
+    if k == "S":
+        return "S"
+    if k == "M":
+        return " ".join(["M %d" % len(t[1])] + [spec_text(c) for c in t[1]])
+    if k == "G":
+        return "G %s %s" % (t[1], spec_text(t[2]))
+    if k == "X":
+        return "X %s %s %s" % ("-" if t[1] is None else t[1], "-" if t[2] is None else t[2], spec_text(t[3]))
+    raise AssertionError(t)
+
+
+def spec_bound(t):
+    """max |output| per unit |input| (for tolerances)"""
+    k = t[0]
+    if k == "D":
+        return 1.0
+    if k == "S":
+        return 0.0
+    if k == "M":
+        return sum(spec_bound(c) for c in t[1])
+    if k == "G":
+        return abs(float(F(t[1]))) * spec_bound(t[2])
+    return (1.0 if t[1] is None else abs(float(F(t[1])))) * spec_bound(t[3])
+
+
+def uses_ts(sc):
+    return any("spec" in it or "specs" in it for it in sc["items"])
+
+
+def item_specs(it):
+    """The track spec(s) of an item (a plain `track` is `DirectTrackSpec(track)`)."""
+    if it["kind"] == "H":
+        return it["specs"] if "specs" in it else [["D", t] for t in it["tracks"]]
+    return [it["spec"] if "spec" in it else ["D", it["track"]]]
+
+
+def _exact_delay_samples(sr, ms):
+    """ceil(sr*ms/1000 - 1/2) in exact arithmetic (the documented meaning of the code's formula)"""
+    q = F(sr) * ms / 1000 - F(1, 2)
+    return -((-q.numerator) // q.denominator)
+
+
+def gen_delay_ms(rng, sr, T):
+    """A delay in ms (as the exact Fraction of a float) that is k (+-1/4) samples at `sr`, far from a rounding tie so
+    that the code's float formula and exact arithmetic agree. Returns (string, k)."""
+    for _ in range(20):
+        k = rng.choice([0, 1, 1, 2, 3, 5, T + 2])
+        off = rng.choice([F(0), F(1, 4), F(-1, 4)]) if k > 0 else rng.choice([F(0), F(1, 4)])
+        ms = F(float(F(1000) * (k + off) / sr))
+        q = F(sr) * ms / 1000 - F(1, 2)
+        if abs(q - round(q)) >= F(1, 10 ** 6) and _exact_delay_samples(sr, ms) == k:
+            return frs(ms), k
+    return "0/1", 0
+
+
+TS_GAINS = ["1/2", "2/1", "-1/1", "1/4", "3/2", "1/1"]
+
+
+def gen_spec(rng, sc, feat, depth=0):
+    nin, sr, T = sc["nin"], sc["sr"], sc["T"]
+    d = ["D", rng.randrange(nin)]
+    k = rng.random()
+    if depth >= 2:
+        k *= 0.45
+    if k < 0.15:
+        return d
+    if k < 0.22:
+        feat.add("ts:silent")
+        return ["S"]
+    if k < 0.45:
+        ms, n = gen_delay_ms(rng, sr, T)
+        feat.add("ts:matrix-delay" + ("" if n <= T else ">T") if n else "ts:matrix-delay0")
+        g = rng.choice([None] + TS_GAINS)
+        return ["X", g, ms, d if rng.random() < 0.7 else gen_spec(rng, sc, feat, depth + 1)]
+    if k < 0.6:
+        feat.add("ts:gain")
+        return ["G", rng.choice(TS_GAINS), gen_spec(rng, sc, feat, depth + 1)]
+    if k < 0.85:
+        feat.add("ts:mix")
+        n = rng.choice([1, 2, 2, 3])
+        kids = [gen_spec(rng, sc, feat, depth + 1) for _ in range(n)]
+        if rng.random() < 0.25:
+            kids.insert(rng.randrange(len(kids) + 1), ["S"])
+        return ["M", kids]
+    # the shape select_items builds for a matrix channel: gain(mix(matrix coefficients))
+    feat.add("ts:matrix-pack")
+    coeffs = []
+    for _ in range(rng.choice([1, 2, 3])):
+        ms = None
+        if rng.random() < 0.6:
+            ms, _n = gen_delay_ms(rng, sr, T)
+            feat.add("ts:matrix-delay")
+        coeffs.append(["X", rng.choice([None] + TS_GAINS), ms, ["D", rng.randrange(nin)]])
+    return ["G", rng.choice(TS_GAINS), ["M", coeffs]]
+
+
+def add_specs(rng, sc):
+    """Give every item of a generated scenario a non-trivial track spec (most of them)."""
+    feat = set(sc["features"])
+    for it in sc["items"]:
+        if it["kind"] == "H":
+            it["specs"] = [gen_spec(rng, sc, feat) if rng.random() < 0.7 else ["D", t] for t in it["tracks"]]
+        else:
+            it["spec"] = gen_spec(rng, sc, feat) if rng.random() < 0.9 else ["D", it["track"]]
+    if sc["T"] >= 2 and rng.random() < 0.35:
+        # a stretch of digital silence in the input (delay lines must keep running through it)
+        a = rng.randrange(sc["T"])
+        for j in range(a, min(sc["T"], a + rng.randint(1, max(1, sc["T"] // 2)))):
+            sc["x"][j] = [0] * sc["nin"]
+        feat.add("ts:silent-run")
+    feat.add("ts")
+    sc["features"] = sorted(feat)
+    return sc
+
+
+def gen_rejected_ts(rng):
+    """A track spec outside `Spec.wf` (the processors raise at the first call): model and code must agree."""
+    sc = add_specs(rng, gen_scenario(rng, small=True))
+    it = rng.choice(sc["items"])
+    k = rng.choice(["bad-index", "neg-delay"])
+    if k == "bad-index":
+        bad = ["D", sc["nin"] + rng.choice([0, 1])]
+    else:
+        bad = ["X", None, frs(F(float(F(-1000) * rng.choice([1, 2, 5]) / sc["sr"]))), ["D", 0]]
+    wrap = rng.choice(["top", "gain", "mix"])
+    if wrap == "gain":
+        bad = ["G", "2/1", bad]
+    elif wrap == "mix":
+        bad = ["M", [["D", 0], bad]]
+    if it["kind"] == "H":
+        it["specs"][rng.randrange(len(it["specs"]))] = bad
+    else:
+        it["spec"] = bad
+    sc["features"] = sorted(set(sc["features"]) | {"rejected:ts-" + k})
+    return sc
 
 
 def make_py_blocks(item):
@@ -151,12 +327,15 @@ class Session:
             self.item_gains.append(gs)
             src = MetadataSourceIter(pbs)
             if it["kind"] == "O":
-                items.append(ObjectRenderingItem(track_spec=DirectTrackSpec(it["track"]), metadata_source=src))
+                ts = spec_real(it["spec"]) if "spec" in it else DirectTrackSpec(it["track"])
+                items.append(ObjectRenderingItem(track_spec=ts, metadata_source=src))
             elif it["kind"] == "D":
-                items.append(DirectSpeakersRenderingItem(track_spec=DirectTrackSpec(it["track"]), metadata_source=src))
+                ts = spec_real(it["spec"]) if "spec" in it else DirectTrackSpec(it["track"])
+                items.append(DirectSpeakersRenderingItem(track_spec=ts, metadata_source=src))
             else:
-                items.append(HOARenderingItem(track_specs=[DirectTrackSpec(t) for t in it["tracks"]],
-                                              metadata_source=src))
+                tss = ([spec_real(t) for t in it["specs"]] if "specs" in it
+                       else [DirectTrackSpec(t) for t in it["tracks"]])
+                items.append(HOARenderingItem(track_specs=tss, metadata_source=src))
 
         def replay(block):
             self.calls += 1
@@ -204,12 +383,21 @@ def opt(s):
 def encode(sc, sess, parts, mode="run"):
     nout = sess.nout
     taps = sess.taps
+    ts = uses_ts(sc)
+    if ts:
+        mode = {"run": "runts", "spec": "spects"}[mode]
     secs = [mode, "cfg %d %d %d %d" % (sc["sr"], sc["B"] if sc["B"] is not None else 512, nout, sc["nin"]),
             "taps %d %s" % (taps.shape[0], " ".join(rat(v) for v in taps.reshape(-1))),
             "parts " + " ".join(str(p) for p in parts),
             "x " + " ".join(str(int(v)) for row in sc["x"] for v in row)]
     for it, gs in zip(sc["items"], sess.item_gains):
-        if it["kind"] == "O":
+        if ts:
+            sp = item_specs(it)
+            if it["kind"] == "H":
+                secs.append("H %d %s" % (len(sp), " ".join(spec_text(t) for t in sp)))
+            else:
+                secs.append("%s %s" % (it["kind"], spec_text(sp[0])))
+        elif it["kind"] == "O":
             secs.append("O %d" % it["track"])
         elif it["kind"] == "D":
             secs.append("D %d" % it["track"])
@@ -491,7 +679,11 @@ def shape_class(parts, T):
 
 def scale_of(sc):
     m = max([1.0] + [abs(v) for row in sc["x"] for v in row])
-    return m * max(1, sum(4 if it["kind"] == "H" else 1 for it in sc["items"]))
+    w = 0.0
+    for it in sc["items"]:
+        b = sum(max(1.0, spec_bound(t)) for t in item_specs(it))  # 1 for a plain track
+        w += max(4.0, b) if it["kind"] == "H" else b
+    return m * max(1.0, w)
 
 
 def has_diffuse(sc):
@@ -626,19 +818,29 @@ class C02(Spec):
         "Earverif.Renderer." + t for t in (
         "aligner_eq", "run_factor", "renderAll_eq_run", "procChans_spec", "chans_subRun_spec", "obj_stream",
         "ds_stream", "hoa_stream", "render_refines_spec", "C02_block_independent", "C02_length_and_origin",
-        "render_refines_spec_partial", "C02_block_independent_partial"))
+        "render_refines_spec_partial", "C02_block_independent_partial", "run_prefix")) + tuple(
+        "Earverif.RendererTS." + t for t in (
+        "procChansTS_reid", "render_strip", "stepsTo_direct", "stepsTo_hoa", "run_stripS", "init_stripS",
+        "render_refines_spec_ts", "render_eq_outTS", "C02_block_independent_ts", "C02_length_and_origin_ts",
+        "item_stream_eq_processor_run"))
     HYPOTHESES_NOTE = (
         "theorems still stated with component facts as hypotheses: none needed any more - render_refines_spec, "
         "C02_block_independent and C02_length_and_origin are proved outright (hypothesis SessionOK = block_size >= 1 and "
         "accepted timelines); render_refines_spec_partial / C02_block_independent_partial are kept from round 1 "
         "(their aligner hypothesis is discharged by aligner_eq; the three per-renderer run hypotheses remain in "
-        "their statements) and are superseded. Not under the kernel: FFT convolver (FIR stand-in), gain calculators "
-        "(captured), track processors other than DirectTrackSpec.")
+        "their statements) and are superseded. Round 4: render_refines_spec_ts / C02_block_independent_ts / "
+        "C02_length_and_origin_ts are proved outright for items with arbitrary well-formed track specs (hypothesis "
+        "SessionOKTS = SessionOK + C20's Spec.wf + every HOA item has >= 1 spec). Not under the kernel: FFT convolver "
+        "(FIR stand-in), gain calculators (captured).")
     trusted_base = (
         "models Earverif/Model/{Stream,Timeline,Renderer}.lean are hand transliterations of Delay, "
         "VariableBlockSizeAdapter, BlockAligner, ProcessingBlock/FixedGains/InterpGains/FixedMatrix, "
         "BlockProcessingChannel, the three Interpret*Metadata classes and the render methods; tied to the real "
         "Renderer by differential runs on every check",
+        "Earverif/Model/RendererTS.lean transliterates set_rendering_items/render/get_tail with "
+        "TrackProcessor/MultiTrackProcessor per item, importing the processor state machine of the C20 model "
+        "(Model/TrackSpec.lean); tied to the real Renderer by differential runs with items constructed with "
+        "mix/gain/matrix-coefficient(delay)/silent track specs",
         "OverlapSaveConvolver (FFT) is modelled as a direct-form FIR with history, tied only by correspondence",
         "gain calculators are black boxes: their per-block results are captured and given to the model",
         "the model runs at frame type Vector Rat n (exact); the theorems are stated for any frame type with the "
@@ -647,21 +849,29 @@ class C02(Spec):
     assumptions = (
         "timelines accepted by the interpreters (ordered, non-overlapping, rtime/duration paired, block within "
         "object, interpolationLength <= duration, start times >= 0)",
-        "block_size >= 1; sample_rate >= 1; track indices within the input channels; DirectTrackSpec inputs",
+        "block_size >= 1; sample_rate >= 1; track specs well formed (C20 Spec.wf: direct indices within the input "
+        "channels, coefficient delays round to >= 0 samples), every HOA item has at least one track spec; input "
+        "frames have n_in samples and get_tail is called with n_channels = n_in",
         "exact rational arithmetic on the model side; the property's 'up to rounding' is the float gap",
     )
     rule = (
         "scenario = (layout, block_size, decorrelator size, sample rate, items with generated accepted timelines, "
         "integer input) x partition of the input into render() calls; model and real Renderer compared block by "
         "block; partitions exhaustive for T <= 8 in thorough (all compositions, with and without empty blocks), "
-        "sampled in quick, random for longer streams; non-trivial = at least one item and T >= 1"
+        "sampled in quick, random for longer streams; non-trivial = at least one item and T >= 1; a second family "
+        "of scenarios gives the items generated track specs (mix of inputs, gain, matrix coefficient with gain and a "
+        "delay of 0..5 or > T samples not on a rounding tie, silent, nested up to depth 3, the gain(mix(matrix "
+        "coefficients)) shape of matrix packs) rendered through the real Renderer and the extended model; specs "
+        "outside Spec.wf (bad index, negative delay) must raise on both sides"
     )
 
     # budgets
     def budgets(self, ctx):
         if ctx.quick:
-            return dict(small=45, parts_small=10, long=14, parts_long=3, rejected=12, conv=40, search=60)
-        return dict(small=220, parts_small=None, long=120, parts_long=5, rejected=80, conv=400, search=500)
+            return dict(small=45, parts_small=10, long=14, parts_long=3, rejected=12, conv=40, search=60,
+                        ts_small=30, ts_long=8, ts_rejected=8)
+        return dict(small=220, parts_small=None, long=120, parts_long=5, rejected=80, conv=400, search=500,
+                    ts_small=150, ts_long=60, ts_rejected=40)
 
     def scenarios(self, ctx):
         bud = self.budgets(ctx)
@@ -676,6 +886,17 @@ class C02(Spec):
             scs.append((sc, partitions_for(rng, sc["T"], False, bud["parts_long"])))
         for i in range(bud["rejected"]):
             sc = gen_rejected(rng)
+            scs.append((sc, partitions_for(rng, sc["T"], False, 3)))
+        # round 4: the same kinds of scenarios with non-trivial track specs on the items (extended model)
+        for i in range(bud["ts_small"]):
+            sc = add_specs(rng, gen_scenario(rng, small=True))
+            exhaustive = bud["parts_small"] is None and (sc["T"] <= 6 or i % 8 == 0)
+            scs.append((sc, partitions_for(rng, sc["T"], exhaustive, bud["parts_small"] or 24)))
+        for i in range(bud["ts_long"]):
+            sc = add_specs(rng, gen_scenario(rng, small=False))
+            scs.append((sc, partitions_for(rng, sc["T"], False, bud["parts_long"])))
+        for i in range(bud["ts_rejected"]):
+            sc = gen_rejected_ts(rng)
             scs.append((sc, partitions_for(rng, sc["T"], False, 3)))
         return scs
 
@@ -760,10 +981,13 @@ class C02(Spec):
                 sc = gen_scenario(rng, T=rng.randint(600, 2500), default_sizes=True)
             else:
                 sc = gen_scenario(rng, small=rng.random() < 0.5)
+            if i % 3 == 1:
+                sc = add_specs(rng, sc)
             plist = partitions_for(rng, sc["T"], False, 4)
             runs = [(p, run_real(sc, p)) for p in plist]
             ctx.case(("search", json.dumps(sc, sort_keys=True), tuple(plist)), sc["T"] >= 1)
-            ctx.count("search:" + ("default-sizes" if default_sizes else "small-sizes"))
+            ctx.count("search:" + ("default-sizes" if default_sizes else "small-sizes") +
+                      ("+track-specs" if uses_ts(sc) else ""))
             predicate_c02(ctx, sc, runs)
 
 
@@ -783,12 +1007,31 @@ REGISTRY = dict(
     "to the real ear.core.renderer.Renderer on every run (block_size 1-8, decorrelator size 2-16 via public options; "
     "captured gains; all compositions of streams <= 8 frames in thorough; OverlapSaveConvolver and the adapter against "
     "the FIR model) and the direct predicate (max |out_A - out_B| <= 1e-9 scale over blockings, total length = input "
-    "length) searches the real code, including default 512/512 sizes in thorough.",
+    "length) searches the real code, including default 512/512 sizes in thorough. "
+    "Round 4 - track processors are now INSIDE the model: Earverif/Model/RendererTS.lean gives every Objects/"
+    "DirectSpeakers item a TrackSpec.Spec and every HOA item a list of specs, builds TrackProcessor/MultiTrackProcessor "
+    "in set_rendering_items and steps them in the per-item loop of each render call (state machine imported from the "
+    "C20 model, incl. the lazily created per-coefficient Delay lines), and feeds get_tail's zero block through them. "
+    "Earverif.RendererTS.render_refines_spec_ts proves for every session with block_size >= 1, accepted timelines and "
+    "well-formed specs (C20 Spec.wf; direct/silent/mix/gain/matrix coefficient with gain and delay, nested to any "
+    "depth) and EVERY partition that nothing raises and the concatenated output is RenderSpec.out applied to the "
+    "per-item streams meaning(spec)(input ++ tail silence) cut to the input length (render_eq_outTS: = outTS, the "
+    "formula written out); proof = C20's step_after/stepList_after (induction step of processor_eq_meaning) shows "
+    "each render call equals a render call of the direct-track model on the block of processed streams (render_strip, "
+    "run_stripS, init_stripS), then render_refines_spec via run_prefix. Corollaries C02_block_independent_ts, "
+    "C02_length_and_origin_ts; item_stream_eq_processor_run ties the streams to processor_eq_meaning. The "
+    "correspondence renders generated scenarios whose items carry mix / gain / matrix-coefficient(gain, delay of a few "
+    "or > T samples) / silent / nested / matrix-pack-shaped track specs through the real Renderer and the extended "
+    "model (driver ops runts/spects), plus specs outside Spec.wf that must raise on both sides; a third of the "
+    "partition-pair search uses such items.",
     note="Trusted: Lean kernel; hand transliteration + correspondence harness; the FFT convolver is modelled as a "
-    "direct-form FIR (tied by correspondence only); gain calculators are black boxes (captured); DirectTrackSpec inputs "
-    "(track processors are C20). Quantifier: timelines accepted by the interpreters with non-negative durations / "
-    "interpolation lengths and start >= 0. Exact rationals on the model side; the property's 'up to rounding' is the "
-    "float gap. render_refines_spec_partial / C02_block_independent_partial are superseded leftovers.",
+    "direct-form FIR (tied by correspondence only); gain calculators are black boxes (captured). Quantifier: timelines "
+    "accepted by the interpreters with non-negative durations / interpolation lengths and start >= 0; track specs "
+    "satisfying Spec.wf (indices within the input channels, delays rounding to >= 0 samples; delays generated away "
+    "from rounding ties so that the float formula of init_delay is unambiguous - the tie rule itself is C20), HOA "
+    "items with >= 1 spec; one sample rate per session. Exact rationals on the model side; the property's 'up to "
+    "rounding' is the float gap. render_refines_spec_partial / C02_block_independent_partial are superseded "
+    "leftovers.",
     technique="Lean 4 refinement proof of the composed renderer (induction over partitions, component by component) + "
     "differential correspondence with the real Renderer + partition-pair search",
     design_ref="DESIGN.md section 4, C02/C03",
